@@ -212,7 +212,10 @@ HARNESSES = [
                    {'cells': 2, 'genes': 2, 'clusters': 1,
                     'normalization': 'raw', 'max_proc': 2},
                    {'cells': 2, 'genes': 1, 'clusters': 2, 'enc': 'csr',
-                    'max_proc': 2}],
+                    'max_proc': 2},
+                   {'cells': 1, 'genes': 2, 'clusters': 1,
+                    'normalization': 'raw', 'max_proc': 1,
+                    'x_dtype': 'uint16'}],
             thorough_cases=[
                 {'cells': 3, 'genes': 2, 'clusters': 2},
                 {'cells': 4, 'genes': 1, 'clusters': 2, 'max_proc': 3},
